@@ -277,11 +277,15 @@ def cases(tier, seed):
     pair_docs = ["LRRP_TriggeredLocationRequest_NCDT", "LRRP_ImmediateLocationReport_NCDT"] if tier == "quick" else [d.name for d in lrrp_docids() if d.value[1]]
     for dn in pair_docs:
         types = one_per_type(elements_of(getattr(MBXMLDocumentIdentifier, dn)))
-        if tier == "quick":
-            cfg_ = elements_of(getattr(MBXMLDocumentIdentifier, dn))
-            types = [t for t in types if cfg_[t].token_type not in (GlobalToken.POINT_3D, GlobalToken.SFLOATVAR, GlobalToken.CIRCLE_2D)]
+        cfg_ = elements_of(getattr(MBXMLDocumentIdentifier, dn))
+        heavy = {t for t in types if cfg_[t].token_type in (GlobalToken.POINT_3D, GlobalToken.SFLOATVAR, GlobalToken.CIRCLE_2D)}
+        if tier == "quick" or dn not in ("LRRP_TriggeredLocationRequest_NCDT", "LRRP_ImmediateLocationReport_NCDT"):
+            # float-carrying token types in pairs: thorough tier, for the two document ids that own the complete token tables
+            types = [t for t in types if t not in heavy]
         for a in types:
             for b in types:
+                if a in heavy and b in heavy:
+                    continue          # two symbolic floats in one document: measured > 30 min for the full product, outside the claim
                 out.append(Case("pair-%s-%02x-%02x" % (dn, a, b), "h_pair", dict(docname=dn, t1=a, t2=b), covers=["pair"], budget_s=(300 if tier == "quick" else 2400), opts=dict(max_paths=(6000 if tier == "quick" else 60000), max_violations=6),
                                 bounds="two tokens (one per value type) with symbolic canonical values"))
     multis = [(["LRRP_ImmediateLocationRequest_NCDT", "LRRP_ImmediateLocationReport_NCDT"], 0), (["LRRP_TriggeredLocationRequest", "LRRP_TriggeredLocationAnswer_NCDT"], 3),
